@@ -11,6 +11,10 @@ package main
 //   bind  = one token per aggregate call of the predicate in document order: b<j> (the placeholder reads SELECT aggregate j,
 //           as buildTrigger decided) | t (trigger only)
 //   row   = <key> v0 .. v(nfields-1)    key = comma separated ids or "-" ; value = n/d | N (NULL) | A (absent)
+//           family nested (dotted column names, values in nested maps of the row): an absent value is also written
+//           Ap (the parent section exists, without the leaf), A=n/d / Ap=n/d (the path is absent and the row carries a
+//           TOP-LEVEL key named like the leaf of the path, with value n/d: another column, not the aggregate's input).
+//           For the model every A.. token is a missing value.
 //   column names: the model knows fields by index only; the names (lower-case, mixed-case such as deviceTemp /
 //           loadKw / X1, or two columns that differ in letter case only) are what the SQL and the rows use.
 //           Column names are case sensitive in a row, so fn(deviceTemp) is the aggregate of exactly that column,
@@ -80,6 +84,70 @@ func c17GenNames(rng *RNG, nf int) ([]string, string) {
 		}
 	}
 	return names, "mixed"
+}
+
+// nested (dotted) column names: the value of field "cpu.load" is row["cpu"]["load"]. Pairwise distinct as paths;
+// several share a parent (cpu.load / cpu.t) or a leaf (cpu.load / m.load); flat names that are the leaf of a
+// nested one (load, t, Temp) stand next to them as columns of their own.
+var c17NestedNames = []string{"cpu.load", "cpu.t", "m.load", "m.v", "dev.Temp", "dev.stat.rpm", "env.stat.t", "s.x", "stream.v", "io.kWh"}
+var c17NestedFlat = []string{"load", "t", "v", "Temp", "rpm", "x", "kWh", "w"}
+
+func c17Leaf(name string) string { return name[strings.LastIndexByte(name, '.')+1:] }
+
+// c17GenNestedNames: at least one dotted name; the others dotted (2/3) or flat (1/3; a flat one is often the leaf
+// name of a dotted one of the same case).
+func c17GenNestedNames(rng *RNG, nf int) []string {
+	names := []string{c17NestedNames[rng.Intn(len(c17NestedNames))]}
+	for len(names) < nf {
+		var n string
+		switch rng.Intn(6) {
+		case 0:
+			n = c17Leaf(names[rng.Intn(len(names))])
+		case 1:
+			n = c17NestedFlat[rng.Intn(len(c17NestedFlat))]
+		default:
+			n = c17NestedNames[rng.Intn(len(c17NestedNames))]
+		}
+		dup := false
+		for _, m := range names {
+			dup = dup || strings.EqualFold(m, n)
+		}
+		if !dup {
+			names = append(names, n)
+		}
+	}
+	j := rng.Intn(nf)
+	names[0], names[j] = names[j], names[0]
+	return names
+}
+
+// c17SetPath stores v at the dotted path (intermediate maps are created, an existing one is extended).
+func c17SetPath(data map[string]any, path string, v any) {
+	seg := strings.Split(path, ".")
+	cur := data
+	for _, k := range seg[:len(seg)-1] {
+		nx, ok := cur[k].(map[string]any)
+		if !ok {
+			nx = map[string]any{}
+			cur[k] = nx
+		}
+		cur = nx
+	}
+	cur[seg[len(seg)-1]] = v
+}
+
+// c17EnsureParent: the path is absent, but its parent sections exist (without the leaf).
+func c17EnsureParent(data map[string]any, path string) {
+	seg := strings.Split(path, ".")
+	cur := data
+	for _, k := range seg[:len(seg)-1] {
+		nx, ok := cur[k].(map[string]any)
+		if !ok {
+			nx = map[string]any{}
+			cur[k] = nx
+		}
+		cur = nx
+	}
 }
 
 func c17HasUpper(s string) bool { return strings.ToLower(s) != s }
@@ -336,7 +404,8 @@ func c17ResultTok(idx string, m map[string]any, ncols, nouts int, special bool) 
 type c17Spec struct {
 	ncols, nf int
 	fnames    []string // column name of field i
-	family    string   // lower | mixed | twin
+	family    string   // lower | mixed | twin | nested
+	decoys    int      // nested: rows*fields with an absent path and a top-level key named like its leaf
 	outs      []c17Ref
 	pred      *c17Pred
 	sql       string
@@ -375,11 +444,24 @@ func c17MakeSpecial(s *c17Spec) {
 	}
 }
 
-func c17Gen(rng *RNG, maxRows int) c17Spec {
+func c17Gen(rng *RNG, maxRows int) c17Spec { return c17GenFam(rng, maxRows, false) }
+
+// c17GenNested: the family `nested`. Some column names are dotted paths (cpu.load), their values sit in nested
+// maps of the row. An absent value ('A') of a dotted column means the PATH is absent (the section is missing, or
+// present without the leaf); such a row often carries a top-level key named like the leaf (load) - an unrelated
+// column as far as the statement is concerned - whose value (incl. +-100) would change aggregates and decisions if
+// it were read instead. The model is the same: the field is missing in that row.
+func c17GenNested(rng *RNG, maxRows int) c17Spec { return c17GenFam(rng, maxRows, true) }
+
+func c17GenFam(rng *RNG, maxRows int, nested bool) c17Spec {
 	var s c17Spec
 	s.ncols = []int{0, 1, 1, 1, 2, 2}[rng.Intn(6)]
 	s.nf = rng.Range(1, 3)
-	s.fnames, s.family = c17GenNames(rng, s.nf)
+	if nested {
+		s.fnames, s.family = c17GenNestedNames(rng, s.nf), "nested"
+	} else {
+		s.fnames, s.family = c17GenNames(rng, s.nf)
+	}
 	nouts := rng.Range(1, 4)
 	for i := 0; i < nouts; i++ {
 		s.outs = append(s.outs, c17GenRef(rng, s.nf))
@@ -415,10 +497,20 @@ func c17Gen(rng *RNG, maxRows int) c17Spec {
 		groups[g] = k
 	}
 	nullPct := []int{0, 0, 10, 25, 60}[rng.Intn(5)]
+	if nested {
+		nullPct = []int{15, 30, 45, 60}[rng.Intn(4)]
+	}
+	flat := map[string]bool{}
+	for _, n := range s.fnames {
+		if !strings.Contains(n, ".") {
+			flat[n] = true
+		}
+	}
 	n := rng.Range(3, maxRows)
 	for i := 0; i < n; i++ {
 		g := groups[rng.Intn(ng)]
 		row := c17Row{key: g, data: map[string]any{}}
+		var decoys []int
 		for c := 0; c < s.ncols; c++ {
 			if c == 0 {
 				row.data[c17Cols[c]] = "k" + strconv.Itoa(g[c])
@@ -427,10 +519,34 @@ func c17Gen(rng *RNG, maxRows int) c17Spec {
 			}
 		}
 		for f := 0; f < s.nf; f++ {
+			name := s.fnames[f]
+			dotted := nested && strings.Contains(name, ".")
+			set := func(v any) {
+				if dotted {
+					c17SetPath(row.data, name, v)
+				} else {
+					row.data[name] = v
+				}
+			}
 			if rng.Intn(100) < nullPct {
+				if dotted {
+					if rng.Intn(4) == 0 {
+						row.vals = append(row.vals, "N") // the path resolves to an explicit NULL
+						set(nil)
+						continue
+					}
+					if rng.Bool() {
+						row.vals = append(row.vals, "Ap")
+						c17EnsureParent(row.data, name)
+					} else {
+						row.vals = append(row.vals, "A")
+					}
+					decoys = append(decoys, f)
+					continue
+				}
 				if rng.Bool() {
 					row.vals = append(row.vals, "N")
-					row.data[s.fnames[f]] = nil
+					set(nil)
 				} else {
 					row.vals = append(row.vals, "A")
 				}
@@ -439,16 +555,39 @@ func c17Gen(rng *RNG, maxRows int) c17Spec {
 			if rng.Intn(3) == 0 {
 				q := rng.Range(-12, 32)
 				row.vals = append(row.vals, c17Q(q).tok())
-				row.data[s.fnames[f]] = float64(q) / 4
+				set(float64(q) / 4)
 			} else {
 				z := rng.Range(-3, 8)
 				row.vals = append(row.vals, c17Q(4*z).tok())
 				if rng.Intn(4) == 0 {
-					row.data[s.fnames[f]] = int64(z)
+					set(int64(z))
 				} else {
-					row.data[s.fnames[f]] = z
+					set(z)
 				}
 			}
+		}
+		// a top-level key named like the leaf of an absent path (never a column of the statement, never a group column)
+		for _, f := range decoys {
+			d := c17Leaf(s.fnames[f])
+			if flat[d] || rng.Intn(10) >= 7 {
+				continue
+			}
+			if _, ok := row.data[d]; ok {
+				continue
+			}
+			q := rng.Range(-12, 32)
+			switch rng.Intn(4) {
+			case 0:
+				q = 400
+				row.data[d] = 100
+			case 1:
+				q = -400
+				row.data[d] = -100.0
+			default:
+				row.data[d] = float64(q) / 4
+			}
+			row.vals[f] += "=" + c17Q(q).tok()
+			s.decoys++
 		}
 		s.rows = append(s.rows, row)
 	}
@@ -492,6 +631,9 @@ func c17GenTTL(rng *RNG, maxRows int) c17Spec {
 func c17CopyRow(m map[string]any) map[string]any {
 	c := make(map[string]any, len(m))
 	for k, v := range m {
+		if sub, ok := v.(map[string]any); ok {
+			v = c17CopyRow(sub)
+		}
 		c[k] = v
 	}
 	return c
@@ -702,6 +844,56 @@ func c17Corpus() []c17Spec {
 	}
 }
 
+// nested column names, hand-written: a row without the path but with a top-level key named like the leaf.
+// row = group, then per field: int value | nil (explicit NULL at the path) | "A" (path absent) | "A:<n>" (path
+// absent, the row carries the top-level key <leaf> = n) | "P:<n>" (the same, and the parent section exists)
+func c17NestedCorpus() []c17Spec {
+	mk := func(names []string, outs []c17Ref, p *c17Pred, sql string, rows [][]any) c17Spec {
+		s := c17Spec{ncols: 1, nf: len(names), outs: outs, pred: p, sql: sql, fnames: names, family: "nested"}
+		for _, r := range rows {
+			g := r[0].(int)
+			row := c17Row{key: []int{g}, data: map[string]any{"ga": "k" + strconv.Itoa(g)}}
+			for f, name := range names {
+				switch x := r[1+f].(type) {
+				case nil:
+					row.vals = append(row.vals, "N")
+					c17SetPath(row.data, name, nil)
+				case int:
+					row.vals = append(row.vals, c17Q(4*x).tok())
+					c17SetPath(row.data, name, x)
+				case string:
+					tok := "A"
+					if x[0] == 'P' {
+						tok = "Ap"
+						c17EnsureParent(row.data, name)
+					}
+					if len(x) > 2 {
+						n, _ := strconv.Atoi(x[2:])
+						row.data[c17Leaf(name)] = float64(n)
+						tok += "=" + c17Q(4*n).tok()
+						s.decoys++
+					}
+					row.vals = append(row.vals, tok)
+				}
+			}
+			s.rows = append(s.rows, row)
+		}
+		return s
+	}
+	atom := func(r c17Ref, op int, lit int) *c17Pred { return &c17Pred{kind: 'a', ref: r, op: op, lit: c17Q(4 * lit)} }
+	cs, mx, sm := c17Ref{0, -1}, c17Ref{4, 0}, c17Ref{1, 1}
+	return []c17Spec{
+		// max over a nested column, selected (upper case: trigger-only as well)
+		mk([]string{"cpu.load"}, []c17Ref{cs, mx}, atom(mx, 0, 50),
+			"SELECT ga, COUNT(*) AS o0, MAX(cpu.load) AS o1 FROM stream GROUP BY ga, GLOBAL WINDOW TRIGGER WHEN MAX(cpu.load) > 50",
+			[][]any{{0, 10}, {0, "A:95"}, {1, "P:70"}, {0, 51}, {0, 20}, {1, nil}, {1, 60}, {0, "A"}}),
+		// bound call (lower-case SELECT spelling) and a trigger-only sum over a column with the same leaf elsewhere
+		mk([]string{"cpu.load", "m.load"}, []c17Ref{cs, mx}, &c17Pred{kind: '|', l: atom(mx, 0, 50), r: atom(sm, 1, 10)},
+			"SELECT ga, count(*) AS o0, max(cpu.load) AS o1 FROM stream GROUP BY ga, GLOBAL WINDOW TRIGGER WHEN max(cpu.load) > 50 OR sum(m.load) >= 10",
+			[][]any{{0, 10, 1}, {0, "A:60", 2}, {0, 5, "P:30"}, {0, 2, 3}, {0, 1, 4}, {0, 55, 1}, {0, "A:99", "A"}}),
+	}
+}
+
 // WITH(STATETTL) boundary cases: the documented pattern under a reaper
 func c17TTLCorpus() []c17Spec {
 	base := c17Corpus()[0] // COUNT(*) >= 3 per ga
@@ -754,6 +946,14 @@ func runC17(tier string, seed uint64, o *Out) error {
 	for i := 0; i < nTTL; i++ {
 		specs = append(specs, c17GenTTL(trng, maxRows))
 	}
+	// nested column names: an own random stream again; the first nNestedE2E of them also through the public API
+	nrng := NewRNG(seed*0x100000001B3 + 0x17F2)
+	nNested, nNestedE2E := nStep/5, nE2E/6
+	nestedFrom := len(specs)
+	specs = append(specs, c17NestedCorpus()...)
+	for i := 0; i < nNested; i++ {
+		specs = append(specs, c17GenNested(nrng, maxRows))
+	}
 	type res struct {
 		line string
 		bind string
@@ -764,7 +964,7 @@ func runC17(tier string, seed uint64, o *Out) error {
 	sem := make(chan struct{}, 12)
 	for i := range specs {
 		i := i
-		e2e := i < ncorpus || i-ncorpus < nE2E
+		e2e := i < ncorpus || i-ncorpus < nE2E || (i >= nestedFrom && i-nestedFrom < nNestedE2E)
 		wg.Add(1)
 		sem <- struct{}{}
 		go func() {
@@ -804,6 +1004,9 @@ func runC17(tier string, seed uint64, o *Out) error {
 		o.Count("colnames_" + s.family)
 		if s.special {
 			o.Count("group_values_null_marker_empty_pipe_backslash")
+		}
+		if s.decoys > 0 {
+			o.Count("nested_case_with_absent_path_and_toplevel_leaf_key")
 		}
 		// predicate calls over a column whose name has an upper-case letter, by binding
 		bs := strings.Fields(r.bind)
